@@ -20,6 +20,19 @@ lists of ints.  Nothing in the oracle imports or introspects the library.
              between and after importing the library's bank modules in several orders: afterwards every library
              value decodes the boundary probes exactly as in-process (everything imported first), and the program's
              own values decode per the reference for their declared width/flags.
+(e) limits   values declared by the program with range limits: NumericValue (signed / unsigned, widths 1, 2, 3, 4, 8) and
+             ScaledNumericValue x MASK/TMASK support x (min_value, max_value) pairs - none, 0, 1, -1, the type's extremes
+             and their neighbours, min == max, an empty range, one side open: 1-byte values over all 256 byte strings,
+             wider ones over their boundary sets, plus Hypothesis (width 1..8, limits and bytes near every edge); judged
+             by the reference (MASK, TMASK, then range limits -> Invalid).  The same kind of values is declared in the
+             fresh-interpreter histories of (d) (group "limits").
+(f) declare  what is accepted / refused when a value is declared: banks with / without lock byte and latch byte, values
+             with per-location (mixed) access types at ascending / descending / scattered locations, several bases:
+             a lockable location at ANY position of the value is refused (LockingNotSupported) iff the bank has no lock
+             byte, a location that already belongs to a value (or is the bank's own 0x00 / 0x02) at any position is
+             refused (MemoryLocationOverlap), everything else is accepted; afterwards the bank's location map holds
+             exactly the accepted values and no lockable location in a bank without lock byte.  Deterministic sweep
+             (every position x every other access type, all type combinations up to 3 locations) + Hypothesis sequences.
 (b) inverse  raw_to_value(value_to_raw(x)) == x for plain numbers (table kind "uint"/"cct")
              over all in-range numbers (<= 2 bytes) or a sample, and for strings of every
              length 0..len.
@@ -47,7 +60,9 @@ RULE = ("(class, raw) pairs: complete enumeration of all byte strings for every 
         "layout: one case per table row and per bank object plus generated 255-byte bank images; every decode case "
         "x the form the bank image is handed over in (list / tuple / bytes / bytearray / None elsewhere / shorter / "
         "longer); history: (declaration/import history in a fresh interpreter, value class, boundary byte string), "
-        "non-trivial = the reference says MASK or TMASK")
+        "non-trivial = the reference says MASK or TMASK; limits: (declaration with min_value / max_value, byte string), "
+        "non-trivial as for decode; declare: (bank flags, sequence of declarations with per-location access types), "
+        "non-trivial = some declaration has to be refused or mixes access types")
 ASSUMPTIONS = [
     "memory map and decoding rules are my hand transcription of IEC 62386-102 9.10.6/9.10.7 and DiiA "
     "251/252/253 (harness/ref_memory.py); the texts are not in the sandbox - rows marked 'pinned' or with "
@@ -69,7 +84,14 @@ ASSUMPTIONS = [
     "declaration histories: a program may declare banks and values of its own with MemoryBank, MemoryRange / "
     "MemoryLocation, NumericValue and dali.memory.energy.ScaledNumericValue and the class attributes the library's own "
     "modules use (bank, locations, signed, mask_supported, tmask_supported, max_value, unit), at any point relative to "
-    "importing the library's bank modules; bank numbers 100..129 are the program's",
+    "importing the library's bank modules; bank numbers 100..159 are the program's",
+    "declared limits: min_value / max_value are inclusive bounds on the decoded integer (signed when the value is "
+    "signed), None = no bound, 0 is a bound like any other; MASK / TMASK (when supported) win over the limits; for a "
+    "ScaledNumericValue the limits apply to the unsigned number behind the scale byte",
+    "declaration-time rules: a refused declaration raises MemoryLocationOverlap / LockingNotSupported - the one that "
+    "applies, either when both do; what a bank keeps of a REFUSED declaration is not judged except that no lockable "
+    "location may be registered in a bank without lock byte: later declarations that touch the refused value's "
+    "locations may be accepted or refused as overlapping; a value that lists one location twice is not generated",
     "signed MASK/TMASK patterns are exercised on values declared by the check itself (the library declares "
     "no signed value), using only the public declaration mechanism",
 ]
@@ -657,7 +679,7 @@ def _check_total(key, raw):
 # afterwards everything else is imported and every value class decodes the probe set.
 LIB_MODULES = ("dali.memory.info", "dali.memory.oem", "dali.memory.energy", "dali.memory.diagnostics",
                "dali.memory.maintenance")
-USER_GROUPS = ("plain-unsigned", "plain-signed", "scaled")
+USER_GROUPS = ("plain-unsigned", "plain-signed", "scaled", "limits")
 _FLAGCOMBOS = ((True, True), (False, True), (True, False), (False, False))
 
 
@@ -666,6 +688,25 @@ def user_specs(group):
     out = []
     gi = USER_GROUPS.index(group)
     signed = group == "plain-signed"
+    if group == "limits":
+        # declared range limits: at 0, 1, -1, min == max, one side open - signed and unsigned
+        for ci, (mask, tmask) in enumerate(_FLAGCOMBOS):
+            bankno = 100 + 10 * gi + ci
+            addr = 0x03
+            for sg in (False, True):
+                for w in (1, 2, 4):
+                    top = (1 << (8 * w - 1)) - 1 if sg else (1 << (8 * w)) - 1
+                    pairs = [(0, None), (None, 0), (0, 0), (1, top - 3), (None, None)]
+                    pairs += [(-1, 1), (-top - 1, -1)] if sg else [(1, None), (top, top)]
+                    for i, (lo, hi) in enumerate(pairs):
+                        name = "UserL%s%s%s%dB%d" % ("S" if sg else "U", "M" if mask else "", "T" if tmask else "", w, i)
+                        row = dict(key="USER." + name, cls=name, module="__main__", bankobj="USER%d" % bankno,
+                                   bank=bankno, first=addr, last=addr + w - 1, width=w, memtype=("NVM_RO",) * w,
+                                   kind="uint", signed=sg, mask=mask, tmask=tmask, min=lo, max=hi, exp10=None,
+                                   trust="independent", pinned_fields=())
+                        out.append((name, row))
+                        addr += w
+        return out
     for ci, (mask, tmask) in enumerate(_FLAGCOMBOS):
         bankno = 100 + 10 * gi + ci
         addr = 0x03
@@ -712,6 +753,8 @@ def _declare(group, order):
             attrs["tmask_supported"] = True
         if row["max"] is not None:
             attrs["max_value"] = row["max"]
+        if row["min"] is not None:
+            attrs["min_value"] = row["min"]
         classes[name] = type(name, (base,), attrs)
     return classes
 
@@ -834,9 +877,10 @@ def _check_history(steps):
             if b[0] == "raised" or not _accept(_dec(b), ref, row, raw):
                 out.append(("C11:user-declared-value:%s%s" % (row["kind"], "-signed" if row["signed"] else ""),
                             "%s: the %d-byte %s value %s declared by the program (signed=%s, mask_supported=%s, "
-                            "tmask_supported=%s, max_value=%r) decodes [%s] to %r, reference says %r"
+                            "tmask_supported=%s, min_value=%r, max_value=%r) decodes [%s] to %r, reference says %r"
                             % (how, row["width"], "ScaledNumericValue" if row["kind"] == "scaled" else "NumericValue",
-                               name, row["signed"], row["mask"], row["tmask"], row["max"], _hex(raw), b[-1], ref[1])))
+                               name, row["signed"], row["mask"], row["tmask"], row["min"], row["max"], _hex(raw), b[-1],
+                               ref[1])))
                 break
     seen = {}
     for sig, msg in out:
@@ -853,14 +897,14 @@ def histories(seed):
         [D("plain-unsigned"), D("plain-signed"), I("energy"), D("scaled"), I("diagnostics"), I("maintenance"), I("oem"),
          I("info")],
         [D("plain-unsigned", "down"), I("diagnostics"), D("plain-signed", "down"), I("maintenance"), D("scaled", "down"),
-         I("info"), I("oem")],
+         I("info"), D("limits"), I("oem")],
         [I("energy"), D("scaled"), I("oem"), D("plain-unsigned"), I("diagnostics"), I("maintenance"), I("info")],
-        [D("scaled", "down"), D("plain-unsigned"), I("maintenance"), I("diagnostics"), I("oem"), I("info")],
+        [D("limits", "down"), D("scaled", "down"), D("plain-unsigned"), I("maintenance"), I("diagnostics"), I("oem"), I("info")],
         [I("info"), I("oem"), I("energy"), I("diagnostics"), I("maintenance"), D("scaled"), D("plain-signed"),
          D("plain-unsigned", "down")],
         [I("maintenance"), D("plain-signed"), I("oem"), D("plain-unsigned"), I("info"), I("energy"), I("diagnostics"),
          D("scaled")],
-        [D("plain-signed", "down"), D("scaled"), D("plain-unsigned")],
+        [D("plain-signed", "down"), D("scaled"), D("plain-unsigned"), D("limits")],
     ]
     mods = [m.rsplit(".", 1)[1] for m in LIB_MODULES]
     for j in range(2):                  # seed-dependent import orders with the declarations at moving positions
@@ -876,6 +920,300 @@ def histories(seed):
             steps.insert((k + 2 * gi) % (len(steps) + 1), D(g, "down" if (k + gi) % 2 else "up"))
         hs.append(steps)
     return hs
+
+
+# ------------------------------------ (e) declared range limits, (f) declaration-time rules ----
+# "For every declared memory value ...": a program declares values of its own with the public declaration mechanism
+# (the class attributes dali/memory/*.py use).  (e) declared range limits min_value / max_value at 0, 1, -1, the
+# type's extremes, min == max, an empty range, one side open - judged by the reference semantics (MASK, TMASK, then
+# range limits) over exhaustive (1 byte) or boundary byte strings.  (f) the rules enforced when a value is declared:
+# no two values overlap and a lockable location only exists in a bank with a lock byte - whatever the position of the
+# offending location inside the value, for values with per-location (mixed) access types.
+_ULIM = {}
+MEMTYPES = RM.MEMORY_TYPES
+
+
+def _limit_spec(w, signed, mask, tmask, lo, hi, scaled=False):
+    return {"width": w, "signed": bool(signed), "mask": bool(mask), "tmask": bool(tmask), "min": lo, "max": hi,
+            "scaled": bool(scaled)}
+
+
+def _limit_row(spec):
+    w = spec["width"]
+    name = "Lim%s%s%s%s%dB" % ("Scaled" if spec["scaled"] else "", "S" if spec["signed"] else "U",
+                               "M" if spec["mask"] else "", "T" if spec["tmask"] else "", w)
+    return dict(key="USERLIM." + name, cls=name, module=__name__, bankobj="USERLIM", bank=140, first=0x03,
+                last=0x03 + w - 1, width=w, memtype=("NVM_RO",) * w, kind="scaled" if spec["scaled"] else "uint",
+                signed=spec["signed"], mask=spec["mask"], tmask=spec["tmask"], min=spec["min"], max=spec["max"],
+                exp10=None, trust="independent", pinned_fields=())
+
+
+def _limit_class(spec):
+    """The value class a program gets for this declaration (declared once per process), and its table row."""
+    key = (spec["width"], spec["signed"], spec["mask"], spec["tmask"], spec["min"], spec["max"], spec["scaled"])
+    if key in _ULIM:
+        return _ULIM[key]
+    loc = _lib()["location"]
+    row = _limit_row(spec)
+    if spec["scaled"]:
+        from dali.memory.energy import ScaledNumericValue as base
+    else:
+        base = loc.NumericValue
+    bank = loc.MemoryBank(row["bank"], 0x20, has_latch=True)
+    attrs = dict(bank=bank, locations=loc.MemoryRange(row["first"], row["last"], type_=loc.MemoryType.NVM_RO), unit="x")
+    if spec["signed"]:
+        attrs["signed"] = True
+    if spec["mask"]:
+        attrs["mask_supported"] = True
+    if spec["tmask"]:
+        attrs["tmask_supported"] = True
+    if spec["min"] is not None:
+        attrs["min_value"] = spec["min"]
+    if spec["max"] is not None:
+        attrs["max_value"] = spec["max"]
+    _ULIM[key] = (type(row["cls"], (base,), attrs), row)
+    return _ULIM[key]
+
+
+def _limit_how(spec):
+    return ("a %d-byte %s declared by the program with signed=%s, mask_supported=%s, tmask_supported=%s, min_value=%r, "
+            "max_value=%r" % (spec["width"], "ScaledNumericValue" if spec["scaled"] else "NumericValue", spec["signed"],
+                              spec["mask"], spec["tmask"], spec["min"], spec["max"]))
+
+
+def _check_userlim(spec, raw, forms=FORMS):
+    try:
+        cls, row = _limit_class(spec)
+    except Exception as e:  # noqa: a legal declaration (free locations, nothing lockable) must be accepted
+        return [("C11:user-declared-value:declaration-raised", "%s: the declaration raised %r" % (_limit_how(spec), e))]
+    kind = row["kind"] + ("-signed" if row["signed"] else "")
+    out = []
+    for sig, msg in _check_decode(cls, row, bytes(raw), forms):
+        what = sig.split(":")[1]
+        if what in ("flag", "decode-mismatch") and (spec["min"] is not None or spec["max"] is not None):
+            what = "range-limits"
+        out.append(("C11:user-declared-value:%s:%s" % (kind, what), "%s: %s" % (_limit_how(spec), msg)))
+    return out
+
+
+def limit_specs(w, scaled=False):
+    """Every declaration of section (e) for one width."""
+    nb = w - 1 if scaled else w
+    out = []
+    for signed in ((False,) if scaled else (False, True)):
+        for lo, hi in RM.declared_limit_pairs(nb, signed):
+            for mask, tmask in _FLAGCOMBOS:
+                out.append(_limit_spec(w, signed, mask, tmask, lo, hi, scaled))
+    return out
+
+
+def _limit_raws(row):
+    if row["width"] == 1:
+        return [bytes([v]) for v in range(256)]
+    return image_choices(row) if row["kind"] == "scaled" else number_boundaries(row["width"], row)
+
+
+_BASES = ("num", "str", "bin", "fixed")
+
+
+def _check_declrules(case):
+    """One bank, a sequence of declarations; every one is accepted or refused as the rules say, and afterwards
+    the bank's location map holds exactly the accepted values."""
+    loc = _lib()["location"]
+    has_lock, has_latch = bool(case["has_lock"]), bool(case["has_latch"])
+    bases = {"num": loc.NumericValue, "str": loc.StringValue, "bin": loc.BinaryValue, "fixed": loc.FixedScaleNumericValue}
+    try:
+        bank = loc.MemoryBank(case.get("bank", 150), 0xFE, has_lock=has_lock, has_latch=has_latch)
+    except Exception as e:  # noqa
+        return [("C11:declaration:bank-raised", "MemoryBank(%d, 0xfe, has_lock=%s, has_latch=%s) raised %r"
+                 % (case.get("bank", 150), has_lock, has_latch, e))]
+    how_bank = "bank declared with has_lock=%s, has_latch=%s" % (has_lock, has_latch)
+    occupied = set(RM.bank_reserved(has_lock, has_latch))
+    tainted = set()         # locations of declarations that were refused: what the bank keeps of those is not judged
+    accepted = []
+    out = []
+    for n, d in enumerate(case["decls"]):
+        locs = [(int(a), str(t)) for a, t in d["locs"]]
+        if len({a for a, _ in locs}) != len(locs):
+            raise ValueError("a value that lists a location twice is not part of this check")
+        reasons = RM.declaration_reasons(occupied, has_lock, locs)
+        unsure = any(a in tainted for a, _ in locs)
+        mls = tuple(loc.MemoryLocation(address=a, type_=getattr(loc.MemoryType, t)) for a, t in locs)
+        given = mls[0] if (d.get("single") and len(mls) == 1) else (list(mls) if d.get("as_list") else mls)
+        how = "%s, declaration %d of %d: a %s at %s" % (
+            how_bank, n + 1, len(case["decls"]), bases[d.get("base", "num")].__name__,
+            ", ".join("%#04x %s" % lt for lt in locs))
+        got, cls = "accept", None
+        try:
+            cls = type("Decl%d" % n, (bases[d.get("base", "num")],), {"bank": bank, "locations": given})
+        except loc.MemoryLocationOverlap:
+            got = "overlap"
+        except loc.LockingNotSupported:
+            got = "locking"
+        except Exception as e:  # noqa
+            out.append(("C11:declaration:raised", "%s raised %r" % (how, e)))
+            break
+        pos = [i for i, (a, t) in enumerate(locs) if t == "NVM_RW_L"]
+        if got == "accept":
+            if reasons:
+                if "locking" in reasons:
+                    out.append(("C11:declaration:lockable-accepted-without-lock-byte",
+                                "%s is accepted although the bank has no lock byte (lockable location at position %s of "
+                                "%d inside the value)" % (how, "/".join(str(i + 1) for i in pos), len(locs))))
+                else:
+                    out.append(("C11:declaration:overlap-accepted", "%s is accepted although location(s) %s already "
+                                "belong to another value" % (how, [hex(a) for a, _ in locs if a in occupied])))
+                break
+            accepted.append((cls, mls))
+            occupied.update(a for a, _ in locs)
+            tainted.difference_update(a for a, _ in locs)
+        else:
+            allowed = set(reasons) | ({"overlap"} if unsure else set())
+            if got not in allowed:
+                out.append(("C11:declaration:refused-" + got, "%s is refused (%s) although %s" % (
+                    how, "MemoryLocationOverlap" if got == "overlap" else "LockingNotSupported",
+                    "its locations are free and the bank %s" % ("has a lock byte" if has_lock else "needs no lock byte for it")
+                    if not reasons else "the reason to refuse it is %s" % "/".join(sorted(reasons)))))
+                break
+            tainted.update(a for a, _ in locs if a not in occupied)
+    # the bank's location map afterwards (one root cause, one signature: not after a wrong verdict above)
+    try:
+        for cls, mls in ([] if out else accepted):
+            for ml in mls:
+                ent = bank.locations[ml.address]
+                if ent is None or ent.memory_value is not cls or ent.memory_location is not ml:
+                    out.append(("C11:declaration:location-map", "%s: after the declarations location %#04x does not "
+                                "belong to the accepted value %s (%r)" % (how_bank, ml.address, cls.__name__, ent)))
+                    break
+            if cls not in bank.values:
+                out.append(("C11:declaration:location-map", "%s: accepted value %s is not in bank.values"
+                            % (how_bank, cls.__name__)))
+        for a, ent in ({} if out else bank.locations).items():
+            if ent is None:
+                continue
+            if a not in occupied and a not in tainted:
+                out.append(("C11:declaration:location-map", "%s: location %#04x belongs to %r although no accepted "
+                            "value is there" % (how_bank, a, ent.memory_value)))
+                break
+            if getattr(ent.memory_location.type_, "name", None) == "NVM_RW_L" and not has_lock:
+                out.append(("C11:lockable-without-lock:user-bank", "%s: afterwards location %#04x (%s) is lockable "
+                            "but the bank has no lock byte" % (how_bank, a, ent.memory_value.__name__)))
+                break
+        if bool(bank.has_lock) != has_lock or bool(bank.has_latch) != has_latch:
+            out.append(("C11:declaration:bank-flags", "%s reports has_lock=%r has_latch=%r"
+                        % (how_bank, bank.has_lock, bank.has_latch)))
+    except Exception as e:  # noqa
+        out.append(("C11:declaration:raised", "%s: reading the bank's location map raised %r" % (how_bank, e)))
+    seen = {}
+    for sig, msg in out:
+        seen.setdefault(sig, msg)
+    return list(seen.items())
+
+
+def _declrules_nontrivial(case):
+    """some declaration has to be refused, or mixes access types"""
+    occupied = set(RM.bank_reserved(case["has_lock"], case["has_latch"]))
+    for d in case["decls"]:
+        locs = [(a, t) for a, t in d["locs"]]
+        if RM.declaration_reasons(occupied, case["has_lock"], locs) or len({t for _, t in locs}) > 1:
+            return True
+        occupied.update(a for a, _ in locs)
+    return False
+
+
+def _declrules_labels(case):
+    labs = ["declaration:bank:%s%s" % ("lock" if case["has_lock"] else "no-lock", "+latch" if case["has_latch"] else "")]
+    occupied = set(RM.bank_reserved(case["has_lock"], case["has_latch"]))
+    for d in case["decls"]:
+        locs = [(a, t) for a, t in d["locs"]]
+        r = RM.declaration_reasons(occupied, case["has_lock"], locs)
+        labs.append("declaration:" + ("+".join(sorted(r)) if r else "legal"))
+        if not r:
+            occupied.update(a for a, _ in locs)
+        else:
+            break           # what follows a refusal may touch its locations (not judged)
+    return labs
+
+
+def declrules_sweep():
+    """Deterministic part of (f)."""
+    banks = [(False, False), (False, True), (True, False), (True, True)]
+    others = [t for t in MEMTYPES if t != "NVM_RW_L"]
+    B = lambda lk, lt, decls: {"op": "declrules", "has_lock": lk, "has_latch": lt, "decls": decls}    # noqa
+    V = lambda locs, **kw: dict(locs=[list(x) for x in locs], **kw)                                    # noqa
+    for lk, lt in banks:
+        # a lockable location at every position of a value of every width 1..6, the rest of every other type
+        for w in range(1, 7):
+            for p in range(w):
+                for j, o in enumerate(others):
+                    types = [o] * w
+                    types[p] = "NVM_RW_L"
+                    yield B(lk, lt, [V([(0x10 + i, t) for i, t in enumerate(types)], base=_BASES[(w + p + j) % 4],
+                                       single=(w == 1 and j % 2 == 0), as_list=(j % 3 == 0))])
+            yield B(lk, lt, [V([(0x10 + i, "NVM_RW_L") for i in range(w)])])
+        # every combination of access types for widths 1..3 (ascending and descending addresses)
+        for w in (1, 2, 3):
+            for k in range(len(MEMTYPES) ** w):
+                types = [MEMTYPES[(k // len(MEMTYPES) ** i) % len(MEMTYPES)] for i in range(w)]
+                addrs = [0x20 + i for i in range(w)]
+                if k % 2:
+                    addrs.reverse()
+                yield B(lk, lt, [V(list(zip(addrs, types)), base=_BASES[k % 4])])
+        # overlap: the j-th location of a new value hits the i-th location of an accepted one (or the bank's own
+        # locations 0x00 / 0x02), the others are free; afterwards the same value next to it is legal
+        first = V([(0x30 + i, "NVM_RW") for i in range(4)])
+        for w in range(1, 5):
+            for j in range(w):
+                for target in (0x30, 0x31, 0x33, 0x00, 0x02):
+                    addrs = [0x60 + 8 * w + i for i in range(w)]
+                    addrs[j] = target
+                    for t in ("ROM", "NVM_RW_L"):
+                        yield B(lk, lt, [first, V([(a, t if i == (j + 1) % w else "RAM_RW") for i, a in enumerate(addrs)]),
+                                         V([(0x90 + i, "NVM_RO") for i in range(w)])])
+        # a refused declaration does not keep later values from other locations, nor earlier ones from being there
+        yield B(lk, lt, [V([(0x40, "NVM_RW"), (0x41, "NVM_RW_L")]), V([(0x50, "NVM_RW_L")]), V([(0x51, "ROM")]),
+                         V([(0x52, "RAM_RO"), (0x51, "ROM")]), V([(0x53, "NVM_RW_P"), (0x54, "NVM_RW_L"), (0x55, "ROM")])])
+
+
+def declrules_strategy():
+    from hypothesis import strategies as st
+    types = st.sampled_from(list(MEMTYPES) + ["NVM_RW_L", "NVM_RW", "ROM"])
+    addr = st.one_of(st.integers(0, 12), st.integers(0, 12), st.integers(0, 0xFE))
+    value = st.tuples(st.lists(addr, min_size=1, max_size=6, unique=True), st.lists(types, min_size=6, max_size=6),
+                      st.sampled_from(_BASES), st.booleans(), st.booleans()).map(
+        lambda t: dict(locs=[[a, ty] for a, ty in zip(t[0], t[1])], base=t[2], single=t[3], as_list=t[4]))
+    return st.tuples(st.booleans(), st.booleans(), st.lists(value, min_size=1, max_size=7)).map(
+        lambda t: {"op": "declrules", "has_lock": t[0], "has_latch": t[1], "decls": t[2]})
+
+
+def userlim_strategy():
+    from hypothesis import strategies as st
+
+    def spec(t):
+        w, signed, mask, tmask, scaled, lo_k, hi_k, rk, rd, scale = t
+        scaled = scaled and w >= 2
+        signed = signed and not scaled
+        nb = w - 1 if scaled else w
+        bits = 8 * nb
+        lo_ext, hi_ext = (-(1 << (bits - 1)), (1 << (bits - 1)) - 1) if signed else (0, (1 << bits) - 1)
+
+        def lim(k):
+            if k is None:
+                return None
+            anchor, d = k
+            base = {0: 0, 1: lo_ext, 2: hi_ext, 3: (lo_ext + hi_ext) // 2, 4: 1 << max(0, bits - 9)}[anchor]
+            return max(lo_ext, min(hi_ext, base + d))
+        lo, hi = lim(lo_k), lim(hi_k)
+        edges = [x for x in (lo, hi) if x is not None] + [0, -1, lo_ext, hi_ext, hi_ext - 1]
+        v = max(lo_ext, min(hi_ext, edges[rk % len(edges)] + rd))
+        body = (v & ((1 << bits) - 1)).to_bytes(nb, "big")
+        raw = (bytes([scale]) if scaled else b"") + body
+        return {"op": "userlim", "spec": _limit_spec(w, signed, mask, tmask, lo, hi, scaled), "raw": list(raw)}
+    limk = st.one_of(st.none(), st.tuples(st.integers(0, 4), st.integers(-3, 3)))
+    return st.tuples(st.integers(1, 8), st.booleans(), st.booleans(), st.booleans(), st.booleans(), limk, limk,
+                     st.integers(0, 20), st.integers(-3, 3),
+                     st.sampled_from([0, 1, 6, 7, 0xFA, 0xF9, 0xFF, 0x80])).map(spec)
+
 
 
 # ------------------------------------------------------------------ run_case ----
@@ -912,6 +1250,10 @@ def run_case(case):
         return _check_total(case["key"], bytes(case["raw"]))
     if op == "history":
         return _check_history(case["steps"])[0]
+    if op == "userlim":
+        return _check_userlim(case["spec"], bytes(case["raw"]))
+    if op == "declrules":
+        return _check_declrules(case)
     raise ValueError(op)
 
 
@@ -1176,6 +1518,50 @@ def _shard(arg):
         for sig, msg in vs:
             res.violation(sig, case, msg)
         res.sample(case, cls="history")
+    elif kind == "userlim":       # (e) declared range limits: every declaration of one width x boundary byte strings
+        _, w, scaled, seed, n = arg
+        rot = seed + w
+        for spec in limit_specs(w, scaled):
+            try:
+                row = _limit_class(spec)[1]
+            except Exception:  # noqa: reported by _check_userlim
+                row = _limit_row(spec)
+            for raw in _limit_raws(row):
+                res.count()
+                ref = RM.decode_tagged(row, raw)
+                if _nontrivial(row, raw, ref):
+                    res.nontrivial()
+                res.hist[_refclass(ref)] += 1
+                rot += 1
+                for sig, msg in _check_userlim(spec, raw, (FORMS[rot % len(FORMS)],)):
+                    res.violation(sig, {"op": "userlim", "spec": spec, "raw": list(raw)}, msg)
+            res.hist["declared-limits:%s%s" % ("none" if spec["min"] is None and spec["max"] is None else
+                                                 "zero" if 0 in (spec["min"], spec["max"]) else "non-zero",
+                                                 "-signed" if spec["signed"] else "")] += 1
+        res.label("user-declared:%s-%dB" % ("scaled" if scaled else "number", w))
+        if n:
+            from harness.hyp import search
+            search(userlim_strategy(), run_case, res, n, seed, ID,
+                   nontrivial=lambda c: _nontrivial(_limit_row(c["spec"]), bytes(c["raw"])),
+                   classify=lambda c: [_refclass(RM.decode_tagged(_limit_row(c["spec"]), c["raw"]))])
+        res.sample({"op": "userlim", "spec": _limit_spec(w, not scaled, True, True, 0, None, scaled),
+                    "raw": [0xFF] * w}, cls="userlim")
+
+    elif kind == "declrules":     # (f) what is accepted / refused when a value is declared
+        _, seed, n = arg
+        for case in declrules_sweep():
+            res.count()
+            if _declrules_nontrivial(case):
+                res.nontrivial()
+            for lab in _declrules_labels(case):
+                res.label(lab)
+            for sig, msg in _check_declrules(case):
+                res.violation(sig, case, msg)
+        from harness.hyp import search
+        search(declrules_strategy(), run_case, res, n, seed, ID, nontrivial=_declrules_nontrivial,
+               classify=_declrules_labels)
+        res.sample({"op": "declrules", "has_lock": False, "has_latch": True,
+                    "decls": [{"locs": [[0x10, "NVM_RW"], [0x11, "NVM_RW_L"]]}]}, cls="declrules")
     else:
         raise ValueError(kind)
     return res
@@ -1218,6 +1604,11 @@ def run(ctx):
             heavy.append(("image", bk, seed * 1000 + 900 + i, n_img))
     light.append(("layout",))
     hist = [("history", steps) for steps in histories(seed)]
+    for w in (1, 2, 3, 4, 8):
+        heavy.append(("userlim", w, False, seed * 1000 + 950 + w, (400 if q else 6000) if w == 2 else 0))
+    for w in (2, 3, 5):
+        light.append(("userlim", w, True, seed * 1000 + 960 + w, 0))
+    heavy.append(("declrules", seed * 1000 + 970, 400 if q else 8000))
     ctx.pmap(_shard, hist + heavy + light)
     r = ctx.result
     r.exhaustive = False
